@@ -3,12 +3,19 @@
 package main
 
 import (
+	"context"
 	"fmt"
 	"math/rand"
+	"net"
 	"sort"
 	"strings"
+	"sync"
 
+	"google.golang.org/grpc"
+
+	"github.com/chrislusf/seaweedfs/weed/pb/volume_server_pb"
 	"github.com/chrislusf/seaweedfs/weed/sequence"
+	"github.com/chrislusf/seaweedfs/weed/storage/needle"
 	"github.com/chrislusf/seaweedfs/weed/storage/super_block"
 	"github.com/chrislusf/seaweedfs/weed/storage/types"
 	"github.com/chrislusf/seaweedfs/weed/topology"
@@ -56,6 +63,122 @@ func genCounts(r *hx.Rng, style int) topology.VerifCounts {
 		c.EcShard = int64(r.PickInt([]int{1, 5, 9, 10, 11, 14, 20, 28}))
 	}
 	return c
+}
+
+// ---- fake volume servers: one gRPC listener per data-node position, kept for the whole
+// process; AllocateVolume answers according to the fail plan of the running case ----
+type fakeVS struct {
+	volume_server_pb.UnimplementedVolumeServerServer
+	key string
+}
+
+var (
+	fakeMu    sync.Mutex
+	fakePorts = map[string]int{} // node position -> http port (grpc port - 10000)
+	callLog   []string           // node positions in the order AllocateVolume was received
+	failPlan  []bool             // failPlan[i]: the i-th AllocateVolume of the case is refused
+)
+
+func (f *fakeVS) AllocateVolume(ctx context.Context, req *volume_server_pb.AllocateVolumeRequest) (*volume_server_pb.AllocateVolumeResponse, error) {
+	fakeMu.Lock()
+	defer fakeMu.Unlock()
+	i := len(callLog)
+	callLog = append(callLog, f.key)
+	if i < len(failPlan) && failPlan[i] {
+		return nil, fmt.Errorf("verif: allocate refused")
+	}
+	return &volume_server_pb.AllocateVolumeResponse{}, nil
+}
+
+func fakePort(key string) int {
+	if p, ok := fakePorts[key]; ok {
+		return p
+	}
+	for {
+		l, err := net.Listen("tcp", "127.0.0.1:0")
+		hx.Must(err)
+		p := l.Addr().(*net.TCPAddr).Port - 10000
+		if p <= 0 {
+			l.Close()
+			continue
+		}
+		gs := grpc.NewServer()
+		volume_server_pb.RegisterVolumeServerServer(gs, &fakeVS{key: key})
+		go gs.Serve(l)
+		fakePorts[key] = p
+		return p
+	}
+}
+
+// every node has at least one free slot for both disk types, so that every replication
+// 000..222 can succeed on a 3x3x3 tree
+func genPlentiful(r *hx.Rng, ndc, nr, nn int) topoSpec {
+	var t topoSpec
+	for i := 1; i <= ndc; i++ {
+		dc := dcSpec{id: fmt.Sprintf("dc%d", i)}
+		for j := 1; j <= nr; j++ {
+			rk := rackSpec{id: fmt.Sprintf("r%d", j)}
+			for k := 1; k <= nn; k++ {
+				n := nodeSpec{id: fmt.Sprintf("n%d", k), counts: map[string]topology.VerifCounts{}}
+				for _, dt := range diskTypes {
+					var c topology.VerifCounts
+					c.Max = int64(r.Range(1, 2))
+					c.Volume = int64(r.Range(0, int(c.Max)-1))
+					c.Active = c.Volume
+					n.counts[dt] = c
+				}
+				rk.nodes = append(rk.nodes, n)
+			}
+			dc.racks = append(dc.racks, rk)
+		}
+		t.dcs = append(t.dcs, dc)
+	}
+	return t
+}
+
+// fan-out 4-5 at one or two levels (the exhaustive oracle enumeration of the model is
+// skipped on these; the placement rule and the success condition are still checked)
+func genBig(r *hx.Rng) topoSpec {
+	var t topoSpec
+	dims := []int{r.Range(1, 3), r.Range(1, 3), r.Range(1, 3)}
+	dims[r.Intn(3)] = r.Range(4, 5)
+	if r.Chance(1, 3) {
+		dims[r.Intn(3)] = r.Range(4, 5)
+	}
+	style := r.Intn(4)
+	for i := 1; i <= dims[0]; i++ {
+		dc := dcSpec{id: fmt.Sprintf("dc%d", i)}
+		for j := 1; j <= dims[1]; j++ {
+			rk := rackSpec{id: fmt.Sprintf("r%d", j)}
+			for k := 1; k <= dims[2]; k++ {
+				n := nodeSpec{id: fmt.Sprintf("n%d", k), counts: map[string]topology.VerifCounts{}}
+				for _, dt := range diskTypes {
+					n.counts[dt] = genCounts(r, style)
+				}
+				rk.nodes = append(rk.nodes, n)
+			}
+			dc.racks = append(dc.racks, rk)
+		}
+		t.dcs = append(t.dcs, dc)
+	}
+	return t
+}
+
+func isBig(t topoSpec) bool {
+	if len(t.dcs) > 3 {
+		return true
+	}
+	for _, d := range t.dcs {
+		if len(d.racks) > 3 {
+			return true
+		}
+		for _, rk := range d.racks {
+			if len(rk.nodes) > 3 {
+				return true
+			}
+		}
+	}
+	return false
 }
 
 func genTopo(r *hx.Rng) topoSpec {
@@ -121,7 +244,7 @@ func ecTopo() topoSpec {
 	}}
 }
 
-func build(t topoSpec) *topology.Topology {
+func build(t topoSpec, withServers bool) *topology.Topology {
 	topo := topology.NewTopology("topo", sequence.NewMemorySequencer(), 32*1024, 5, false)
 	for _, d := range t.dcs {
 		dc := topology.NewDataCenter(d.id)
@@ -131,6 +254,10 @@ func build(t topoSpec) *topology.Topology {
 			dc.LinkChildNode(rk)
 			for _, ns := range rs.nodes {
 				dn := topology.NewDataNode(ns.id)
+				if withServers {
+					dn.Ip = "127.0.0.1"
+					dn.Port = fakePort(d.id + "/" + rs.id + "/" + ns.id)
+				}
 				rk.LinkChildNode(dn)
 				for dt, c := range ns.counts {
 					topology.VerifUpAdjust(dn, dt, c) // real UpAdjustDiskUsageDelta up to the root
@@ -204,6 +331,9 @@ func coqTopo(topo *topology.Topology) string {
 	return fmt.Sprintf("(Tp %s %s)", coqUsages(topo), hx.List(dcs))
 }
 
+// snapshot after the call(s): same projection as before the call
+func coqTopoNodesOnly(topo *topology.Topology) string { return coqTopo(topo) }
+
 type optSpec struct {
 	rp             string
 	disk           string
@@ -242,17 +372,32 @@ func genOpt(r *hx.Rng, t topoSpec, rp string) optSpec {
 	return o
 }
 
+func svTerm(s *topology.DataNode) string {
+	rk := s.Parent()
+	dc := rk.Parent()
+	return fmt.Sprintf("Sv %s %s %s", q(string(dc.Id())), q(string(rk.Id())), q(string(s.Id())))
+}
+
+func keyTerm(key string) string {
+	p := strings.Split(key, "/")
+	return fmt.Sprintf("Sv %s %s %s", q(p[0]), q(p[1]), q(p[2]))
+}
+
+const newVid = needle.VolumeId(7)
+
 func main() {
 	out := hx.Flags("C10", 400)
 	hx.Must(fla9.Set("alsologtostderr", "false")) // glog: keep the "adds child" chatter off stderr
 	hx.Must(fla9.Set("v", "-1"))
-	out.Rule = "topologies of 1-3 data centers x 0-3 racks x 1-3 nodes built from the real node objects; per node and disk type (hdd \"\", ssd) max/used/remote volume counts and EC shard counts applied with the real UpAdjustDiskUsageDelta, a tenth of the racks/DCs with counters overwritten at that level only; per topology 9 options (replication cycling through all 27 strings, disk type, preferred dc/rack/node incl. unknown dc and rack-without-dc) x 2 math/rand seeds; first cases: volume_growth_test topology and a rack whose EC-shard counter hides that its nodes are full; non-trivial = a placement was returned; distinct = topology+option+seed"
+	out.Rule = "topologies built from the real node objects: (a) 1-3 data centers x 0-3 racks x 1-3 nodes, per node and disk type (hdd \"\", ssd) max/used/remote volume counts and EC shard counts applied with the real UpAdjustDiskUsageDelta, a tenth of the racks/DCs with counters overwritten at that level only; (b) plentiful 3x3x3 (and smaller) trees where every node has a free slot, so that every replication 000..222 succeeds; (c) big trees with fan-out 4-5 at one or two levels (model enumeration skipped, placement rule and success condition checked). Per topology 9 options (replication cycling through all 27 strings, disk type, preferred dc/rack/node incl. unknown dc and rack-without-dc) x 2 math/rand seeds. A third of the calls on (a)/(b) continue like findAndGrow with the real VolumeGrowth.grow against in-process gRPC volume servers (one per data node) whose AllocateVolume follows a fail plan (none / the i-th call refused); observed: RPCs received in order, error, data nodes holding the new volume id, Topology.Lookup, and the counters of every level after the call(s). First cases: volume_growth_test topology, a rack whose EC-shard counter hides that its nodes are full, the partial-grow witness (001, second AllocateVolume refused), 222 on a full 3x3x3 tree; non-trivial = a placement was returned; distinct = topology+option+seed+plan"
 	// Fork: consecutive seeds of hx.NewRng are one stream shifted by one draw
 	root := hx.NewRng(out.Seed).Fork()
 	vg := topology.NewDefaultVolumeGrowth()
 	rpIdx := 0
-	emit := func(t topoSpec, o optSpec, seed int64, kind string) {
-		topo := build(t)
+	// plan == nil: findEmptySlotsForOneVolume only; otherwise grow follows with this fail plan
+	emit := func(t topoSpec, o optSpec, seed int64, plan []bool, kind string) {
+		big := isBig(t)
+		topo := build(t, plan != nil)
 		term := coqTopo(topo)
 		rp, err := super_block.NewReplicaPlacementFromString(o.rp)
 		hx.Must(err)
@@ -261,17 +406,71 @@ func main() {
 		servers, e := topology.FindEmptySlotsForOneVolume(vg, topo, option)
 		var ss []string
 		for _, s := range servers {
-			rk := s.Parent()
-			dc := rk.Parent()
-			ss = append(ss, fmt.Sprintf("Sv %s %s %s", q(string(dc.Id())), q(string(rk.Id())), q(string(s.Id()))))
+			ss = append(ss, svTerm(s))
 		}
+		planTerm := "None"
+		var calls, holders, layout []string
+		growErr := false
+		if plan != nil {
+			var ps []string
+			for _, b := range plan {
+				ps = append(ps, hx.Bool(b))
+			}
+			planTerm = "(Some " + hx.List(ps) + ")"
+			if e == nil { // findAndGrow: grow only after a successful search
+				fakeMu.Lock()
+				callLog, failPlan = nil, plan
+				fakeMu.Unlock()
+				ge := topology.VerifGrow(vg, grpc.WithInsecure(), topo, newVid, option, servers)
+				growErr = ge != nil
+				fakeMu.Lock()
+				for _, k := range callLog {
+					calls = append(calls, keyTerm(k))
+				}
+				fakeMu.Unlock()
+				for _, dc := range topology.VerifChildren(topo) {
+					for _, rk := range topology.VerifChildren(dc) {
+						for _, n := range topology.VerifChildren(rk) {
+							dn := n.(*topology.DataNode)
+							has := false
+							for _, v := range dn.GetVolumes() {
+								if v.Id == newVid {
+									has = true
+								}
+							}
+							if has {
+								holders = append(holders, svTerm(dn))
+							}
+						}
+					}
+				}
+				for _, dn := range topo.Lookup("", newVid) {
+					layout = append(layout, svTerm(dn))
+				}
+				switch {
+				case ge == nil:
+					out.Count("grow:all", 1)
+				case len(holders) == 0:
+					out.Count("grow:none", 1)
+				default:
+					out.Count("grow:partial", 1)
+				}
+			} else {
+				out.Count("grow:not-reached", 1)
+			}
+		}
+		after := coqTopoNodesOnly(topo)
 		optTerm := fmt.Sprintf("(Op %s %s %s %s %d %d %d)",
 			q(string(option.DiskType)), q(o.dc), q(o.rack), q(o.node),
 			rp.DiffDataCenterCount, rp.DiffRackCount, rp.SameRackCount)
-		c := fmt.Sprintf("Build_case %s %s %s %s", term, optTerm, hx.List(ss), hx.Bool(e != nil))
-		canon := term + "|" + optTerm + "|" + fmt.Sprint(seed)
+		c := fmt.Sprintf("Build_case %s %s %s %s %s %s %s %s %s %s %s", term, optTerm, hx.Bool(big), hx.List(ss), hx.Bool(e != nil),
+			planTerm, hx.List(calls), hx.Bool(growErr), hx.List(holders), hx.List(layout), after)
+		canon := term + "|" + optTerm + "|" + fmt.Sprint(seed) + "|" + planTerm
 		out.Add(c, canon, e == nil, kind)
 		out.Count("rp:"+o.rp, 1)
+		if big {
+			out.Count("big-fanout", 1)
+		}
 		if e != nil {
 			msg := e.Error()
 			switch {
@@ -289,37 +488,68 @@ func main() {
 			}
 		} else {
 			out.Count("ok:servers="+fmt.Sprint(len(servers)), 1)
+			out.Count("ok:rp="+o.rp, 1)
 		}
 		if o.dc != "" || o.rack != "" || o.node != "" {
 			out.Count("with-preference", 1)
 		}
 	}
+	full := func() topoSpec { // 3x3x3, every node 0 of 2 used, both disk types
+		return genPlentiful(hx.NewRng(1), 3, 3, 3)
+	}
+	two := func() topoSpec {
+		mk := func(id string) nodeSpec {
+			return nodeSpec{id: id, counts: map[string]topology.VerifCounts{"": {Max: 2}}}
+		}
+		return topoSpec{dcs: []dcSpec{{id: "dc1", racks: []rackSpec{{id: "r1", nodes: []nodeSpec{mk("n1"), mk("n2")}}}}}}
+	}
 	// deterministic first cases
 	fixed := []struct {
-		t topoSpec
-		o optSpec
+		t    topoSpec
+		o    optSpec
+		plan []bool
 	}{
-		{fixedTopo(), optSpec{rp: "002", dc: "dc1"}},
-		{fixedTopo(), optSpec{rp: "010", dc: "dc1", rack: "rack2"}},
-		{fixedTopo(), optSpec{rp: "100"}},
-		{fixedTopo(), optSpec{rp: "200"}},
-		{ecTopo(), optSpec{rp: "010", dc: "dc1", rack: "r1"}},
-		{ecTopo(), optSpec{rp: "011"}},
+		{two(), optSpec{rp: "001"}, []bool{false, true}}, // known finding 0: one of two replicas allocated, error
+		{two(), optSpec{rp: "001"}, []bool{true}},        // none
+		{two(), optSpec{rp: "001"}, []bool{}},            // all
+		{fixedTopo(), optSpec{rp: "002", dc: "dc1"}, nil},
+		{fixedTopo(), optSpec{rp: "010", dc: "dc1", rack: "rack2"}, nil},
+		{fixedTopo(), optSpec{rp: "100"}, nil},
+		{fixedTopo(), optSpec{rp: "200"}, nil},
+		{ecTopo(), optSpec{rp: "010", dc: "dc1", rack: "r1"}, nil},
+		{ecTopo(), optSpec{rp: "011"}, nil},
+		{full(), optSpec{rp: "222"}, nil},
+		{full(), optSpec{rp: "222", dc: "dc2", rack: "r3", node: "n1"}, []bool{false, false, false, false, true}},
 	}
 	for i, f := range fixed {
 		if out.Len() >= out.N {
 			break
 		}
-		emit(f.t, f.o, int64(i+1), "fixed")
+		emit(f.t, f.o, int64(i+1), f.plan, "fixed")
 	}
 	for out.Len() < out.N {
 		r := root.Fork()
-		t := genTopo(r)
+		var t topoSpec
+		style := r.Intn(10)
+		switch {
+		case style < 5:
+			t = genTopo(r)
+		case style < 8:
+			if r.Chance(1, 3) {
+				t = genPlentiful(r, 3, 3, 3)
+			} else {
+				t = genPlentiful(r, r.Range(1, 3), r.Range(1, 3), r.Range(1, 3))
+			}
+		default:
+			t = genBig(r)
+		}
+		big := isBig(t)
 		for k := 0; k < 9 && out.Len() < out.N; k++ {
 			x, y, z := rpIdx/9%3, rpIdx/3%3, rpIdx%3
 			rpIdx++
 			// two thirds of the time bias towards replications the topology may satisfy
-			if r.Chance(2, 3) {
+			// (not on the plentiful trees: there every replication is tried as it comes)
+			if style < 5 && r.Chance(2, 3) || style >= 8 && r.Chance(1, 2) {
 				minR, minN := 3, 3
 				for _, d := range t.dcs {
 					if len(d.racks) > 0 && len(d.racks) < minR {
@@ -331,11 +561,23 @@ func main() {
 						}
 					}
 				}
-				x, y, z = r.Intn(len(t.dcs)), r.Intn(minR+1)%3, r.Intn(minN+1)%3
+				x, y, z = r.Intn(len(t.dcs))%3, r.Intn(minR+1)%3, r.Intn(minN+1)%3
 			}
 			o := genOpt(r, t, fmt.Sprintf("%d%d%d", x, y, z))
+			if style >= 5 && style < 8 && r.Chance(1, 2) {
+				o.dc, o.rack, o.node = "", "", ""
+			}
 			for s := 0; s < 2 && out.Len() < out.N; s++ {
-				emit(t, o, int64(r.Next()>>1), "random")
+				var plan []bool
+				if !big && r.Chance(1, 3) {
+					plan = []bool{}
+					if r.Bool() {
+						n := 1 + x + y + z
+						plan = make([]bool, r.Intn(n)+1)
+						plan[len(plan)-1] = true
+					}
+				}
+				emit(t, o, int64(r.Next()>>1), plan, "random")
 			}
 		}
 	}
